@@ -9,6 +9,7 @@ import LiquerProofs.Lemmas.EvalCache
 import LiquerProofs.Lemmas.EvalExact
 import LiquerProofs.Lemmas.EvalExample
 import LiquerProofs.Lemmas.EvalReuse
+import LiquerProofs.Lemmas.EvalSuffix
 
 namespace Liquer.C09
 
@@ -99,8 +100,7 @@ theorem extension_runs_last_step_links {env : Env} {C : Query → Prop} {T : Str
 
 /-- full statement for extensions by any number `k` of steps: the executed calls are a subsequence of the
 reference calls to the right of the cached prefix.  (The canonical texts of the intermediate queries must differ
-from that of `p`, otherwise progress metadata would hide the entry of `p`.)  Proved parts: one step
-(`extension_runs_last_step`, exact; `extension_runs_last_step_links`, subsequence) and `reuse_subsequence`. -/
+from that of `p`, otherwise progress metadata would hide the entry of `p`.)  Proved: `extension_runs_suffix`. -/
 def extension_runs_suffix_statement (env : Env) : Prop :=
   (∀ q, CanonOK env q) →
   ∀ (n m k : Nat) (w w' : World) (p q : Query) (st : EState) (c0 c : List Str) (o : Outcome),
@@ -113,6 +113,31 @@ def extension_runs_suffix_statement (env : Env) : Prop :=
     refQ env (m+k) q (q.encode Gen.escapeTable) .none none = (o, c) → o ≠ .unmodelled →
     ∃ c', (evalQ env (m+k+1) w' q (q.encode Gen.escapeTable) .none none true).1.calls = w'.calls ++ c' ∧
       c'.Sublist (c.drop c0.length)
+
+/-- Extension by any number of steps, for a closed class of queries (`CanonOK` is needed for the class only; only the
+members of the chain — `ChainOff`: the intermediate queries and `q` — have to be spelled differently from `p`;
+whether `q` or an intermediate query is itself cached does not matter: then even less is executed).  In a sound
+world, after a cacheable evaluation of `p`, the evaluation of the `k`-step extension `q` executes a subsequence of
+the reference calls of `q` to the right of the reference calls of `p`.  Ingredients: fuel adequacy (`adq`: the
+evaluator never needs more fuel than the reference interpretation, so R-eval holds at the *given* reference
+fuel, `tight`) and the induction along the chain (`chain_suffix`). -/
+theorem extension_runs_suffix_closed {env : Env} {C : Query → Prop} {T : Str → Prop} (hC : Closed env C T)
+    (hcanon : ∀ q, C q → CanonOK env q) (n m k : Nat) (w w' : World) (p q : Query) (st : EState)
+    (c0 c : List Str) (o : Outcome) (hen : w.enabled = true) (hS : Sound env w) (hCq : C q)
+    (h1 : evalQ env (n+1) w p (p.encode Gen.escapeTable) .none none true = (w', .st st))
+    (hc : st.caching = true) (he : st.isError = false) (hv : st.volatile = false) (hstep : p.hasStep = true)
+    (hch : ChainOff p q k)
+    (hp : refQ env m p (p.encode Gen.escapeTable) .none none = (.st st, c0))
+    (hq : refQ env (m+k) q (q.encode Gen.escapeTable) .none none = (o, c)) (ho : o ≠ .unmodelled) :
+    ∃ c', (evalQ env (m+k+1) w' q (q.encode Gen.escapeTable) .none none true).1.calls = w'.calls ++ c' ∧
+      c'.Sublist (c.drop c0.length) :=
+  Liquer.extension_runs_suffix hC hcanon n m k w w' p q st c0 c o hen hS hCq h1 hc he hv hstep hch hp hq ho
+
+/-- the full statement (all queries canonical, every extension of `p` spelled differently from `p`) -/
+theorem extension_runs_suffix (env : Env) : extension_runs_suffix_statement env := by
+  intro hcanon n m k w w' p q st c0 c o hen hS h1 hc he hv hstep hch hne _ hp hq ho
+  exact Liquer.extension_runs_suffix (Closed.univ env) (fun q _ => hcanon q) n m k w w' p q st c0 c o hen hS trivial
+    h1 hc he hv hstep (ChainOff.of_chain hch hne) hp hq ho
 
 -- non-vacuity: `one/add-2` from the empty cache is cacheable and has a step; after it the key is present;
 -- the second run (typed differently) executes nothing; the extension of the cached `one` runs `add` only.
@@ -140,7 +165,29 @@ open Ex in
 example : Closed env0 C0 T0 ∧ (∀ q, C0 q → CanonOK env0 q) ∧ Sound env0 {} ∧ C0 qOneAdd :=
   ⟨closed0, canon0, Sound.empty _, Or.inr (Or.inl rfl)⟩
 
+-- the hypotheses of `extension_runs_suffix_closed` for a two-step extension: `one` is cached from the empty world
+-- (sound, enabled), `one/add-2/add-1` extends it by two steps (`chainOff2`, class `C1` closed and canonical);
+-- the reference runs at fuel 8 and 8+2; the evaluation at fuel 8+2+1 executes the two `add`s and not `one`
+open Ex in
+example : Closed env0 C1 T0 ∧ (∀ q, C1 q → CanonOK env0 q) ∧ Sound env0 {} ∧ C1 qOneAddAdd ∧
+    ChainOff qOne qOneAddAdd 2 :=
+  ⟨closed1, canon1, Sound.empty _, Or.inl rfl, chainOff2⟩
+open Ex in
+example :
+    let r := evalQ env0 9 {} qOne (qOne.encode Gen.escapeTable) .none none true
+    let rp := refQ env0 8 qOne (qOne.encode Gen.escapeTable) .none none
+    let rq := refQ env0 (8+2) qOneAddAdd (qOneAddAdd.encode Gen.escapeTable) .none none
+    (({} : World).enabled = true) ∧ qOne.hasStep = true ∧
+    (match r.2, rp.1 with
+     | .st a, .st b => decide (a = b) && a.caching && !a.isError && !a.volatile
+     | _, _ => false) = true ∧
+    rp.2 = [s "root.one(N;)"] ∧
+    rq.1.obs.map (·.value) = some (some (.int 4)) ∧
+    rq.2 = [s "root.one(N;)", s "root.add(I1;I2)", s "root.add(I3;I1)"] ∧
+    (evalQ env0 (8+2+1) r.1 qOneAddAdd (qOneAddAdd.encode Gen.escapeTable) .none none true).1.calls =
+      r.1.calls ++ [s "root.add(I1;I2)", s "root.add(I3;I1)"] := by
+  decide +kernel
+
 end Liquer.C09
 
--- OBLIGATIONS: Liquer.C09.inst_registry Liquer.C09.hit Liquer.C09.present_after Liquer.C09.second_run_silent Liquer.C09.reuse_subsequence Liquer.C09.enabled_invariant Liquer.C09.extension_runs_last_step Liquer.C09.extension_runs_last_step_links
--- STATEMENT-ONLY: Liquer.C09.extension_runs_suffix_statement
+-- OBLIGATIONS: Liquer.C09.inst_registry Liquer.C09.hit Liquer.C09.present_after Liquer.C09.second_run_silent Liquer.C09.reuse_subsequence Liquer.C09.enabled_invariant Liquer.C09.extension_runs_last_step Liquer.C09.extension_runs_last_step_links Liquer.C09.extension_runs_suffix_closed Liquer.C09.extension_runs_suffix
